@@ -148,6 +148,16 @@ Definition ops_table (variant : N) (pre s post : bytes) (pats : list bytes) : li
                       enc_v (op_strip_prefix k p); enc_v (op_strip_suffix k p)]) pats ++
   map (fun n => 0 :: op_repeat s n) [0; 1; 2].
 
+(* --- table 5: pattern-taking functions, per pattern: trim, trim_start, trim_end, replace with each
+   replacement, then split (drained, with the exhausted size_hint) --- *)
+Definition pat_table (variant : N) (pre s post : bytes) (pats reps : list bytes) : list (list N) :=
+  let k := mk_k variant pre s post in
+  let fuel := (length s + 3)%nat in
+  flat_map (fun p =>
+    [enc_v (op_trim k p); enc_v (op_trim_start k p); enc_v (op_trim_end k p)] ++
+    map (fun r => 0 :: op_replace s p r) reps ++
+    [[5; 105]] ++ drain_then_hint split_next split_size_hint enc_k fuel (mk_split k p 0)) pats.
+
 (* Fletcher-style position-sensitive checksum (additions only: cheap under vm_compute) *)
 Definition hash_step (ab : N * N) (x : N) : N * N := let a := fst ab + x in (a, snd ab + a).
 Definition hash_table (t : list (list N)) : list N :=
